@@ -1,14 +1,51 @@
 (** Property C04 - the DBC parser reads back every well-formed definition faithfully, with positions.
-    Only theorem statements, each closed by [exact]. Model: Dbc/Scanner.v, Dbc/Parser.v, Dbc/DecFloat.v
-    ([parse_bytes il id src] = NewParser(src).Parse() with Defs(), after the fixes F8, F9, F11;
-    [parse_bytes_old] = the code as it was). [il], [id]: unicode.IsLetter / IsDigit on runes >= 128. *)
+    Only theorem statements, each closed by [exact]. Model: Dbc/Scanner.v (text/scanner subset),
+    Dbc/Parser.v (parser.go, def.go), Dbc/DecFloat.v (strconv). [parse_bytes il id src] is
+    NewParser(src).Parse() together with Defs() after the fixes F8, F9, F11; [parse_bytes_old] is the code
+    as it was. [il], [id] = unicode.IsLetter / unicode.IsDigit on runes >= 128 (arbitrary).
+    Source AST, printer, denotation and well-formedness: Dbc/Printer.v. *)
 From Coq Require Import ZArith List String.
-From CanVerif Require Import Dbc.Ast Dbc.Scanner Dbc.Parser Dbc.Witness.
+From CanVerif Require Import Dbc.Ast Dbc.Scanner Dbc.Parser Dbc.Printer Dbc.Witness Dbc.RoundTrip.
 Import ListNotations.
 Open Scope Z_scope.
 
+(* FULL STATEMENT (DESIGN.md 5.4), not proved in this generality:
+
+     Theorem parse_print : forall il id (l : layout) (ds : list sdef_full),
+       wf_layout l -> Forall wf_sdef_full ds ->
+       parse_bytes il id (print_full l ds) = Ok (elaborate_full l ds).
+
+   over the source AST of all 16 definition kinds + unknown lines and all layouts of DESIGN.md 4.1
+   (LF/CRLF, blank lines, indentation, extra spaces, empty gaps next to punctuation, line ends inside
+   definitions, strings with escaped quotes / UTF-8 / embedded newlines, decimal and exponent floats).
+   The executable definition of that class is the generator of harness/parser/gen.go; the
+   correspondence run of the check compares implementation, model and denotation on it.
+
+   PROVED (below): the statement for the kinds VERSION, BS_ (all three forms), BU_ and unknown lines
+   (identifier / decimal number / punctuation tokens) in the plain layout (one definition per line,
+   single spaces, LF, every line terminated; strings over printable ASCII without quote and backslash;
+   unsigned integers < 2^64 without leading zeros; any count and order of definitions). *)
+
+(** parse (print ds) = Ok (elaborate ds): one definition per source definition, in order, every field
+    equal to the source value, position = (line of the definition, column 1, byte offset of its line) *)
+Theorem C04_parse_print_partial : forall (il id : Z -> bool) (ds : list sdef),
+  Forall wf_sdef ds -> parse_bytes il id (print ds) = Ok (elaborate ds).
+Proof. exact parse_print_partial. Qed.
+Print Assumptions C04_parse_print_partial.
+
+(** a line that starts with an unrecognised keyword yields exactly one unknown definition and never
+    changes how the following lines are parsed *)
+Theorem C04_unknown_one : forall (il id : Z -> bool) kw ts (ds : list sdef),
+  wf_sdef (SUnknown kw ts) -> Forall wf_sdef ds ->
+  parse_bytes il id (print (SUnknown kw ts :: ds))
+  = Ok (DUnknown {| p_line := 1; p_column := 1; p_offset := 0 |} kw
+        :: elab_from 2 (blen (print_def (SUnknown kw ts))) ds).
+Proof. exact unknown_one. Qed.
+Print Assumptions C04_unknown_one.
+
 (** regression witnesses of the two C04 defects: with the discardLine that read two tokens per
-    iteration, the one-token unknown line FOO_ swallows the following VERSION definition (F8) ... *)
+    iteration, the one-token unknown line FOO_ swallows the following VERSION definition (F8),
+    so C04_unknown_one is false of [parse_bytes_old] ... *)
 Theorem C04_parse_print_refuted : forall il id,
   parse_bytes_old il id (txt ("FOO_" ++ LF ++ "VERSION ""a""" ++ LF)) = Ok [DUnknown (at_ 1 1 0) (txt "FOO_")]
   /\ parse_bytes il id (txt ("FOO_" ++ LF ++ "VERSION ""a""" ++ LF))
@@ -21,9 +58,14 @@ Theorem C04_bit_timing_refuted : forall il id,
   /\ parse_bytes il id (txt ("BS_: 500 : 1 , 2" ++ LF)) = Ok [DBitTiming (at_ 1 1 0) 500 1 2].
 Proof. exact (fun il id => conj (f9_old il id) (f9_fixed il id)). Qed.
 
-(** non-vacuity: a file with VERSION, BS_, BU_, BO_/SG_ (extended id, multiplexed, big-endian signed
-    signal), an unknown line and a two-line comment parses to six definitions *)
-Example C04_nonvacuous : forall il id,
+(** non-vacuity: a source file with all covered kinds satisfies the hypothesis of the round trip
+    (VERSION "1.0" / BS_: 500 : 1 , 2 / BU_: ECU1 ECU2 / FOO_ x 12 ; / BS_: / VERSION "") ... *)
+Example C04_nonvacuous : Forall wf_sdef sample_ds /\ List.length sample_ds = 6%nat.
+Proof. exact (conj sample_ds_wf eq_refl). Qed.
+
+(** ... and the model parses a file of other kinds (BO_/SG_ with extended id, multiplexed big-endian
+    signed signal, unknown line, two-line comment) to six definitions *)
+Example C04_nonvacuous_model : forall il id,
   exists v b n m u c, parse_bytes il id sample_input = Ok [v; b; n; DMessage m; DUnknown u (txt "SIG_GROUP_"); DComment c]
     /\ m_id m = 2566844926 /\ List.length (m_signals m) = 1%nat /\ cm_comment c = txt "a b".
 Proof. exact sample_parses. Qed.
